@@ -227,11 +227,20 @@ impl C02 {
     out.eval("lnext");
     let (y, m, d) = c.ymd(i);
     let k = [("y", y), ("m", m), ("d", d), ("n", n), ("from_jdn", c.jdn(i)), ("to_jdn", c.jdn(j))];
+    let touch = case.a.get(2).cloned().unwrap_or(0) == 1;
+    if touch {
+      out.class("lnext_source_day_read_before_stepping");
+    }
     let r = guard(|| {
       let l = sd_idx(c, i).get_lunar_day();
+      if touch {
+        // fill the per-value memos of the source day first: the result must not inherit them
+        let _ = (l.get_solar_day(), l.get_sixty_cycle_day(), l.get_week());
+      }
       let e = sd_idx(c, j).get_lunar_day();
       let g = l.next(n as isize);
-      (lymd(&e), lymd(&g), ymd(&g.get_solar_day()))
+      let views_ok = g.get_week().get_index() as i64 == weekday(c.jdn(j)) && g.get_sixty_cycle_day().get_sixty_cycle().get_index() as i64 == day_pillar(c.jdn(j)) && ymd(&g.get_sixty_cycle_day().get_solar_day()) == c.ymd(j);
+      (lymd(&e), lymd(&g), if views_ok { ymd(&g.get_solar_day()) } else { (0, 0, 0) })
     });
     if n.abs() > 25 {
       out.nontrivial("lnext", &[i as i64, j as i64]);
@@ -261,7 +270,7 @@ fn order_strategy() -> impl Strategy<Value = Case> {
 }
 
 fn lnext_strategy() -> impl Strategy<Value = Case> {
-  (0..NDAYS as i64, prop_oneof![4 => -70i64..=70, 2 => -800i64..=800, 1 => -40000i64..=40000]).prop_map(|(i, n)| Case::ints(&[i, (i + n).clamp(0, NDAYS as i64 - 1)]))
+  (0..NDAYS as i64, prop_oneof![4 => -70i64..=70, 3 => -12i64..=12, 2 => -800i64..=800, 1 => -40000i64..=40000], 0i64..2).prop_map(|(i, n, t)| Case::ints(&[i, (i + n).clamp(0, NDAYS as i64 - 1), t]))
 }
 
 impl Prop for C02 {
